@@ -401,6 +401,23 @@ func init() {
 		mgr.Unlock()
 		return "ok"
 	})
+	// pipe bfail p=<i> <0|1> <addr>: the backend double at <addr> starts / stops failing its sends (a TCP backend that is
+	// down, a UDP backend whose socket was closed)
+	vReg("pipe bfail", func(a []string) string {
+		if vW == nil {
+			return "not-run"
+		}
+		m := kv(a)
+		i, _ := strconv.Atoi(m["p"])
+		addr := unhx(a[len(a)-1])
+		on := a[len(a)-2] == "1"
+		for _, b := range vW.rrs[i].GetAllBackend() {
+			if vb, ok := b.(*vBackend); ok && vb.addr == addr {
+				vb.fail = on
+			}
+		}
+		return "ok"
+	})
 	vReg("pipe badd", func(a []string) string {
 		if vW == nil {
 			return "not-run"
